@@ -19,7 +19,7 @@ from pegen.tokenizer import Tokenizer
 
 CONTEXTS = ["{a}", "x={a}", "({a} NAME)", "{a}?", "[{a} NAME]", "{a}*", "{a}+", "','.{a}+", "{a}.NAME+", "&{a}", "!{a}",
             "&&{a}", "&&({a} NAME)", "(NAME | {a})", "((({a})))", "x=({a})", "[{a}]*"]
-ATOMS_BAD = ["undefined_rule", "NAMEE"]
+ATOMS_BAD = ["undefined_rule", "NAMEE", "_undefined", "_tmp_7", "__"]
 
 
 def tokens_set() -> list[str]:
